@@ -12,7 +12,12 @@ def concatenate(arrays, axis=0, compressed_axes=None):
     dim = sum(x.shape[axis] for x in arrays)
     shape = list(arrays[0].shape)
     shape[axis] = dim
-    assert all(x.shape[ax] == arrays[0].shape[ax] for x in arrays for ax in set(range(arrays[0].ndim)) - {axis})
+    if not all(
+        x.ndim == arrays[0].ndim and x.shape[ax] == arrays[0].shape[ax]
+        for x in arrays
+        for ax in set(range(arrays[0].ndim)) - {axis}
+    ):
+        raise ValueError("all the input array dimensions except for the concatenation axis must match exactly")
     if compressed_axes is None:
         compressed_axes = (axis,)
     if arrays[0].ndim == 1:
@@ -55,7 +60,8 @@ def stack(arrays, axis=0, compressed_axes=None):
     check_consistent_fill_value(arrays)
     arrays = [arr if isinstance(arr, GCXS) else GCXS(arr, compressed_axes=(axis,)) for arr in arrays]
     axis = normalize_axis(axis, arrays[0].ndim + 1)
-    assert all(x.shape[ax] == arrays[0].shape[ax] for x in arrays for ax in set(range(arrays[0].ndim)) - {axis})
+    if len({x.shape for x in arrays}) != 1:
+        raise ValueError("all input arrays must have the same shape")
     if compressed_axes is None:
         compressed_axes = (axis,)
     if arrays[0].ndim == 1:
